@@ -663,6 +663,13 @@ class Body:
                         self.fire('R4std')
                         continue
                     # std::vector<...> / std::string / std::array<...> as a type: map whole type
+                    if nm == 'make_unique':
+                        # std::make_unique<T>(x): the heap indirection is dropped, the value itself stands for the owned object
+                        la = next_sig(toks, b); ra = match_angle(toks, la)
+                        out.append(T('id', 'OP2_IDENTITY'))
+                        i = ra + 1
+                        self.fire('R19mu')
+                        continue
                     if nm in ('ios_base', 'ios'):
                         # std::ios_base::out / ::openmode ...  ->  OP2_IOS_out / OP2_IOS_openmode (values of the platform's library: assumed)
                         c1 = next_sig(toks, b); c2 = next_sig(toks, c1)
@@ -1332,6 +1339,7 @@ class Body:
                         while st >= 0:
                             x = out[st]
                             if x.k == 'op':
+                                if x.t == '}' and d2 == 0: break          # end of the previous (block) statement
                                 if x.t in (')', ']', '}'): d2 += 1
                                 elif x.t in ('(', '[', '{'):
                                     if d2 == 0: break
@@ -1768,6 +1776,12 @@ def extract_unit(unit, repo, contracts_dir):
         f, name = s[0], s[1]
         opts = s[2] if len(s) > 2 else {}
         txt, fields = extract_struct(open(os.path.join(repo, f)).read(), name, dict(typemap, **opts.get('typemap', {})), opts.get('packed', False), opts.get('cname'))
+        for bf_, bn_ in reversed(opts.get('bases', [])):
+            # R1: data members of a base class come first (single inheritance, no virtual bases)
+            btxt, bfields = extract_struct(open(os.path.join(repo, bf_)).read(), bn_, dict(typemap, **opts.get('typemap', {})), False, '__base__')
+            blines = [l for l in btxt.splitlines() if l.startswith('  ') and not l.startswith('  }')]
+            txt = txt.replace('{\n', '{\n  /* base class %s */\n' % bn_ + '\n'.join(blines) + '\n', 1)
+            fields = bfields + fields
         parts.append(txt)
         unit['members'][opts.get('cname', name)] = {nm: ct for ct, nm, _, _ in fields}
         unit.setdefault('statics', {})[opts.get('cname', name)] = list(extract_struct.last_statics)
